@@ -48,6 +48,25 @@ def run(pid):
     byid = {a["id"]: a for a in arts}
     with Scratch(pid) as sc:
         verdicts, stats = tlc.run_cases("Trace_Artefact", cases, sc, env={"PROP": pid}, timeout=1500)
+        # refinement binding: the transcribed synthesis algorithm (spec/Synth.tla), fed with the recorded
+        # choices, must predict the recorded circuit; judged for every case that fails a clause and for a
+        # seeded sample of the others
+        import random
+        rng = random.Random(seed())
+        failing = [c for c in cases if verdicts[c["id"]][0] == "fail"]
+        others = [c for c in cases if verdicts[c["id"]][0] != "fail" and len(c["inputs"]) <= 9]
+        rng.shuffle(others)
+        scases = []
+        for c in failing + others[: (400 if t == "quick" else 4000)]:
+            a = byid[c["id"]]
+            if "ev" not in a:
+                raise MachineryError("hook events missing: is QLASSKIT_VERIF honoured by the tree under test?")
+            names = [n for n, _ in a["exprs"]]
+            scases.append({"id": c["id"], "inputs": c["inputs"], "exprs": c["exprs"], "unc": c["unc"], "ev": a["ev"],
+                           "rets": sorted({n for n in names if n.startswith("_ret")}),
+                           "temps": sorted({n for n in names if n.startswith("__")}),
+                           "retbits": c["rets"], "gates": [{"w": g["w"]} for g in c["gates"]], "nq": c["nq"], "qmap": c["qmap"]})
+        sverd, sstats = tlc.run_cases("Trace_Synth", scases, sc, timeout=2400, heap="4g")
     nontrivial = set()
     rows = 0
     vst = {}
@@ -56,10 +75,14 @@ def run(pid):
         vst[v[0]] = vst.get(v[0], 0) + 1
         a = byid[c["id"]]
         if v[0] == "fail":
+            sv = sverd[c["id"]]
+            # a failure is attributed to the (known) synthesis algorithm only if the transcribed algorithm
+            # reproduces the recorded circuit exactly AND itself reports the unsound step
+            trig = tuple("synth-model:" + f for f in sorted(sv[1]["__set__"])) if sv[0] == "conform" else ()
             rep.fail({"src": a["src"], "opt": a["opt"], "unc": a["unc"], "origin": a["origin"],
-                      "exprs": a["exprs"], "gates": a["gates"], "qmap": a["qmap"]},
-                     v[1], f"at={v[2]} row={v[3]} opt={a['opt']} unc={a['unc']} src={a['src']!r}",
-                     src=a["src"], key=f"{a['opt']}/{a['unc']}")
+                      "exprs": a["exprs"], "gates": a["gates"], "qmap": a["qmap"], "model": sv},
+                     v[1], f"at={v[2]} row={v[3]} opt={a['opt']} unc={a['unc']} model={sv[0]}:{sv[1]} src={a['src']!r}",
+                     src=a["src"], key=f"{a['opt']}/{a['unc']}", triggers=trig)
         elif v[0] == "ok":
             rows += v[3]
             if len(c["gates"]) >= 2 and c["nq"] > len(c["inputs"]) + 1:
@@ -74,6 +97,12 @@ def run(pid):
         "rule": "one case = one real compile (program x optimizer x uncompute); non-trivial = >=2 gates and >=1 ancilla/scratch qubit; every case is checked on all 2^n input rows by TLC",
         "input_rows_checked": rows,
         "compile_status": st, "verdict_status": vst, "programs": len({j['src'] for j in jobs}),
+        "refinement": {"compiles_replayed_through_Synth_model": len(scases),
+                       "conform": sum(1 for x in sverd.values() if x[0] == "conform"),
+                       "drift": sorted({f"{x[1]}" for x in sverd.values() if x[0] == "drift"})[:10],
+                       "drift_count": sum(1 for x in sverd.values() if x[0] == "drift"),
+                       "model_flags": {f: sum(1 for x in sverd.values() if x[0] == "conform" and f in x[1]["__set__"])
+                                       for f in ("inline-uncompute-released-a-non-zero-ancilla", "uncompute_all-left-a-qubit-non-zero")}},
         "tlc_jvms": stats["jvms"],
     }
     vac = None
